@@ -201,6 +201,13 @@ def wl_big_crowded(ctx, rng, case):
 
     counting = case.index % 2 == 1
     cap, bsz = rng.choice([(400, 2), (300, 2), (1200, 1), (350, 3)])
+    if case.index % 4 >= 2:
+        # WIDE buckets (8 .. 64 slots, every size in between is drawn somewhere): few buckets, each a small table of its own
+        # (indices 2, 3 mod 4: one plain and one counting filter in every four cases)
+        bsz = rng.choice([8, 12, 16, 17, 20, 24, 31, 32, 33, 48, 64, rng.randint(9, 64), rng.randint(16, 40)])
+        cap = max(3, rng.choice([600, 900]) // bsz)
+        ctx.count("big_crowded.cases_with_wide_buckets")
+        ctx.observe("wide_bucket_sizes", bsz, cap=64)
     swaps = rng.choice([500, 500, 300, 1000])
     cls = P.CountingCuckooFilter if counting else P.CuckooFilter
     case.desc = {"cls": cls.__name__, "capacity": cap, "bucket_size": bsz, "max_swaps": swaps, "kind": "big crowded table"}
@@ -388,7 +395,7 @@ PROP = Prop(
         Workload("explore", wl_explore, quick=200, thorough=3500),
         Workload("long", wl_long, quick=60, thorough=3000),
         Workload("crowd", wl_crowd, quick=16, thorough=320),
-        Workload("big_crowded", wl_big_crowded, quick=8, thorough=100),
+        Workload("big_crowded", wl_big_crowded, quick=12, thorough=120),
         Workload("after_refusals", wl_after_refusals, quick=100, thorough=1500),
     ],
     assumptions=["fingerprint model uses an independent FNV-1a (ASCII/bytes keys); keys whose raw fingerprint is 0 (the empty-slot marker) appear only in the zero_fingerprint workload, whose histories contain no removals (how 0 is remapped is the library's choice)",
